@@ -437,6 +437,14 @@ def duration_shape(roles, K_DUR):
                     if not ok_whole:
                         return False, 'the duration handed to the metadata step is `%s`, a component of the clock difference `%s` rather than the ' \
                                       'difference itself (whole seconds / days are dropped)' % (norm(e), norm(n.value))
+                # the clock is the wall clock: CPU-time clocks leave out all waiting (I/O, sleep, locks)
+                mod_ = roles.start.module
+                clock = norm(l.func)
+                dotted = mod_.imports.get(clock.split('.')[0], clock.split('.')[0])
+                full = dotted if '.' not in clock else '%s.%s' % (dotted, clock.split('.', 1)[1])
+                if full.split('.')[-1] in ('process_time', 'thread_time', 'clock', 'process_time_ns', 'thread_time_ns'):
+                    return False, 'the duration is measured with `%s`, a CPU-time clock: time spent waiting (I/O, sleep, locks) is not counted, so the ' \
+                                  'recorded duration is not consistent with wall time' % full
                 return True, '%s: second read of %s() minus `%s` read before the try' % (norm(n), norm(l.func), r.id)
     # the first read kept on the recorder instead of in the scope: any other scope attempt (a nested operation whose assertion
     # fails, another thread) overwrites it while this run is still going on
